@@ -186,7 +186,7 @@ def main(prop_id, tier='quick', replay=None):
     seed = int(os.environ.get('VERIF_SEED', '1'))
     mod = importlib.import_module('pv.props.' + prop_id.lower())
     known = load_known()
-    outdir = os.path.join(ROOT, 'out', prop_id)
+    outdir = os.path.join(os.environ.get('PV_OUT_DIR', os.path.join(ROOT, 'out')), prop_id)
     os.makedirs(outdir, exist_ok=True)
 
     if replay:
@@ -340,7 +340,7 @@ def main(prop_id, tier='quick', replay=None):
     }
     if extra_info:
         ev['coverage'].update(extra_info)
-    evpath = os.path.join(ROOT, 'evidence', '%s.json' % prop_id)
+    evpath = os.path.join(os.environ.get('PV_EVIDENCE_DIR', os.path.join(ROOT, 'evidence')), '%s.json' % prop_id)
     os.makedirs(os.path.dirname(evpath), exist_ok=True)
     json.dump(ev, open(evpath, 'w'), indent=1, default=_json_default)
 
